@@ -374,6 +374,10 @@ def scenarios():
     S.append((Sc('unpinned-selfsigned', [B(cert='selfsigned')]), [(0, 'T')], None))
     S.append((Sc('pinned-invalid-file', [B()], pinned={0: 'garbage'}), [], 'status-z450'))
     S.append((Sc('pinned-bad-then-next-mx', [B(cert='selfsigned'), B(cert='valid2')], pinned={0: 'ca.pem'}), [(1, 'T')], None))
+    # relays named in a route file whose names are no RFC 1035 host names (they resolve all the same): the pinned
+    # certificate is looked up under that name (seeded change c18-m10 forgot the name of relays domainvalid() refuses)
+    for rn in ('mail_gw.c18.test', 'relayhost', 'gw.c18.test.'):
+        S.append((Sc('pinned-selfsigned-relay-%s' % rn.strip('.').replace('.', '-'), [B(cert='selfsigned')], pinned={0: 'ca.pem'}, relay=rn), [], None))
     S.append((Sc('pinned-no-starttls', [B(ehlo_clear=['8BITMIME'])], pinned={0: 'ca.pem'}), [(0, 'C')], 'known:c18-pinned-without-starttls'))
     S.append((Sc('clientcert-no-starttls', [B(ehlo_clear=['8BITMIME'])], clientcert=True), [], None))
     S.append((Sc('clientcert-wildcard-route-no-starttls', [B(ehlo_clear=['8BITMIME'])], clientcert=True, routefile='wildcard'), [], None))
